@@ -1378,6 +1378,10 @@ class Connection(object):
                         raise ProtocolError(
                             "The requested compression type (%s) is not supported by the Cassandra server at %s"
                             % (self.compression, self.endpoint))
+                    if self.compression not in locally_supported_compressions:
+                        raise ProtocolError(
+                            "The requested compression type (%s) is not available locally; "
+                            "install the corresponding package" % (self.compression,))
                     compression_type = self.compression
                 else:
                     # our locally supported compressions are ordered to prefer
